@@ -38,6 +38,9 @@ func symxC13() {
 	wt := symxWillTopics[rt.Int("will_topic", 0, int64(len(symxWillTopics)-1))]
 	wq := byte(rt.Int("will_qos", 0, 2))
 	payload := []byte{rt.Byte("will_payload"), 'z'}
+	if rt.Bool("empty_will_payload") {
+		payload = []byte{} // a zero-length will message is a will like any other
+	}
 	retain := rt.Bool("will_retain")
 	c := symxNewConn()
 	rt.Assert(f1.connect(c, symxConnectBytes("cid", 30, "", []byte(wt), payload, wq, retain)) == nil, "C13.connect_accepted")
